@@ -92,6 +92,12 @@ class FakeTransport(asyncio.Transport):
         self._conn_lost = 0
         self._eof = False
         self.buffer = bytearray()  # accepted by write(), not yet taken by the client
+        # how much a client that does not read lets the server write before writing is paused (the kernel's
+        # and the transport's buffers together); scripts may make it small: script["transport_high"]
+        high = env.sess.script.get("transport_high")
+        if high is not None:
+            self.HIGH = int(high)
+            self.LOW = int(high) // 4
         self.client_paused = False
         self.proto_paused = False
         self.write_fails = False
@@ -408,10 +414,13 @@ class AioEnv:
             if item is not None:
                 kind, val = item
                 target = val if kind == "tick" else loop.time() + val
+                # the clock moves on a millisecond grid, and a deadline computed as "now + timeout" in floating
+                # point is not missed by 1e-16 at the instant the monitors (integer milliseconds) call it due
+                target = round(target * 1000) / 1000
                 self.sess.trace.log("tick", to=ms(target))
                 while True:
                     d = loop.next_deadline()
-                    if d is None or d > target:
+                    if d is None or d > target + 1e-7:
                         break
                     loop._vtime = max(loop._vtime, d)
                     steps += loop.settle()
